@@ -124,7 +124,22 @@ func genC31(seed uint64, tier string) *sim.Plan {
 				st.S = []string{"roundlabel"}
 			}
 		case "notar", "nblock":
-			st.I = append(st.I, tkts(n+1)...)
+			if r.Bool(0.45) {
+				// a well-formed notarization: k distinct valid tickets, k around the threshold, sometimes spoiled by one bad ticket
+				thr := (n*int(p.Cfg["threshold"]) + 99) / 100
+				k := []int{thr - 1, thr, thr, thr + 1, n - 1}[r.Intn(5)]
+				k = min(max(k, 0), n-1)
+				for _, m := range r.Perm(n - 1)[:k] {
+					st.I = append(st.I, int64(tkValid), int64(m), 0)
+				}
+				if byz > 0 && r.Bool(0.3) {
+					t := tkt()
+					at := 2 + 3*r.Intn(k+1)
+					st.I = append(st.I[:at], append(t, st.I[at:]...)...)
+				}
+			} else {
+				st.I = append(st.I, tkts(n+1)...)
+			}
 		}
 		p.Steps = append(p.Steps, st)
 		if r.Bool(0.12) {
@@ -151,6 +166,7 @@ type c31 struct {
 	// (block < notarized_block < notarization < ticket), so an attribution to a verified path is never an artefact of reuse
 	prov    map[string]string
 	tainted map[string]bool // blocks already reported (known finding): not re-reported
+	wasNot  map[string]bool // blocks seen notarized at the previous evaluation (probes)
 	seed1   int64
 }
 
@@ -293,7 +309,7 @@ func runC31(env *sim.Env, p *sim.Plan) *sim.Result {
 	w := NewWorld(WorldCfg{Seed: p.Seed, Miners: n, Sharders: int(p.CfgInt("sharders", 2)), T: max(2, (2*n+2)/3), Threshold: int(p.CfgInt("threshold", 66))})
 	defer w.Close()
 	mc := w.MC
-	c := &c31{w: w, tr: tr, prov: map[string]string{}, tainted: map[string]bool{}}
+	c := &c31{w: w, tr: tr, prov: map[string]string{}, tainted: map[string]bool{}, wasNot: map[string]bool{}}
 	c.thr = mc.GetNotarizationThresholdCount(w.MB.Miners.Size())
 
 	go w.C.StartLFBTicketWorker(w.Ctx, w.GB)
@@ -363,7 +379,13 @@ func runC31(env *sim.Env, p *sim.Plan) *sim.Result {
 			}
 			valid, bad, dups, total := c.validCount(s.b)
 			if valid >= c.thr {
-				tr.Probe("notarized_with_enough_valid_tickets")
+				if !c.wasNot[s.b.Hash] {
+					c.wasNot[s.b.Hash] = true
+					tr.Probe("legitimately_notarized_after_" + carrier)
+					if len(bad) > 0 || dups > 0 {
+						tr.Probe("legitimately_notarized_despite_bad_tickets_present")
+					}
+				}
 				continue
 			}
 			c.tainted[s.b.Hash] = true
@@ -392,7 +414,7 @@ func runC31(env *sim.Env, p *sim.Plan) *sim.Result {
 		if r := mc.GetRound(1); r != nil {
 			nl = len(r.GetNotarizedBlocks())
 		}
-		line := fmt.Sprintf("state cur=%d r1list=%d phase=%d %s out=%v", mc.GetCurrentRound(), nl, mr.GetPhase(), strings.Join(st, " "), w.TakeOut())
+		line := fmt.Sprintf("state cur=%d r1list=%d phase=%d %s out=%v", mc.GetCurrentRound(), nl, mr.GetPhase(), strings.Join(st, " "), w.OutKinds())
 		tr.Event("%s", line)
 		tr.State(fmt.Sprintf("%d/%d/%s", mc.GetCurrentRound(), nl, strings.Join(st, " ")))
 	}
